@@ -6,6 +6,10 @@ abstract interpreter see one spelling of constructs that mean the same:
   if not C: A else: B                   ->  if C: B else: A          (two-armed ifs and conditional expressions)
   if C: v = X else: v = Y               ->  v = X if C else Y        (both arms one assignment to the same plain name)
   v += E                                ->  v = v + E                (plain local names only; numbers, strings, datetimes)
+  if C: <... return|raise|continue|break> else: R   ->   if C: <...>  ;  R      (an else after a terminating body is unnested)
+  dict(a=x, b=y)                        ->  {"a": x, "b": y}
+  f(x, p2=y)                            ->  f(x, y)                  (second pass, needs all signatures: keywords of calls to functions
+                                                                      defined in the tree with one signature become positional)
 
 Original line numbers are kept on the rewritten nodes.  Nothing here changes what the code computes."""
 from __future__ import annotations
@@ -50,8 +54,27 @@ class Normalizer(ast.NodeTransformer):
         node = self._swap(node)
         return self._to_ifexp(node)
 
+    @staticmethod
+    def _terminates(stmts) -> bool:
+        return bool(stmts) and isinstance(stmts[-1], (ast.Return, ast.Raise, ast.Continue, ast.Break))
+
     def _swap(self, node):
         if node.orelse and not (len(node.orelse) == 1 and isinstance(node.orelse[0], ast.If)):
+            tb, te = self._terminates(node.body), self._terminates(node.orelse)
+            if tb and te:
+                # both arms leave: the smaller one becomes the guard clause
+                size = lambda stmts: sum(1 for s_ in stmts for _ in ast.walk(s_))
+                te, tb = (True, False) if size(node.orelse) < size(node.body) else (False, True)
+            if tb and not te:
+                return node  # guard clause already first: the else is unnested by _block
+            if te and not tb:
+                # make the terminating arm the guard:  if C: X else: return  ->  if not C: return ; X
+                t, flipped = _strip_not(node.test)
+                test = t if flipped else ast.copy_location(ast.UnaryOp(op=ast.Not(), operand=node.test), node.test)
+                if isinstance(test, ast.UnaryOp) and isinstance(test.operand, ast.Compare) and len(test.operand.ops) == 1 and type(test.operand.ops[0]) in _INV:
+                    c = test.operand
+                    test = ast.copy_location(ast.Compare(left=c.left, ops=[_INV[type(c.ops[0])]()], comparators=c.comparators), c)
+                return ast.copy_location(ast.If(test=test, body=node.orelse, orelse=node.body), node)
             t, flipped = _strip_not(node.test)
             if flipped:
                 return ast.copy_location(ast.If(test=t, body=node.orelse, orelse=node.body), node)
@@ -68,7 +91,23 @@ class Normalizer(ast.NodeTransformer):
                 return ast.copy_location(new, node)
         return node
 
+    def visit_Call(self, node):
+        self.generic_visit(node)
+        if isinstance(node.func, ast.Name) and node.func.id == "dict" and not node.args and node.keywords and all(k.arg for k in node.keywords):
+            return ast.copy_location(ast.Dict(keys=[ast.copy_location(ast.Constant(value=k.arg), node) for k in node.keywords], values=[k.value for k in node.keywords]), node)
+        return node
+
     def _block(self, stmts):
+        flat = []
+        for st in stmts:
+            flat.append(st)
+            # unnest an else that follows a terminating body (also through elif chains)
+            while isinstance(flat[-1], ast.If) and flat[-1].orelse and flat[-1].body and isinstance(flat[-1].body[-1], (ast.Return, ast.Raise, ast.Continue, ast.Break)):
+                cur = flat[-1]
+                rest = cur.orelse
+                cur.orelse = []
+                flat.extend(self._block(rest))
+        stmts = flat
         out = []
         for st in stmts:
             if (
@@ -94,3 +133,43 @@ def normalize(tree: ast.AST) -> ast.AST:
     tree = Normalizer().visit(tree)
     ast.fix_missing_locations(tree)
     return tree
+
+
+def unique_signatures(trees):
+    """{function name: [param names]} for names all of whose definitions share one parameter list (self/cls dropped)"""
+    sigs = {}
+    for tree in trees:
+        for n in ast.walk(tree):
+            if isinstance(n, (ast.FunctionDef, ast.AsyncFunctionDef)) and not n.args.vararg and not n.args.kwarg and not n.args.posonlyargs and not n.args.kwonlyargs:
+                ps = tuple(a.arg for a in n.args.args if a.arg not in ("self", "cls"))
+                sigs.setdefault(n.name, set()).add(ps)
+    return {k: list(next(iter(v))) for k, v in sigs.items() if len(v) == 1 and not (k.startswith("__") and k.endswith("__"))}
+
+
+class _Kw2Pos(ast.NodeTransformer):
+    def __init__(self, sigs):
+        self.sigs = sigs
+
+    def visit_Call(self, node):
+        self.generic_visit(node)
+        nm = node.func.attr if isinstance(node.func, ast.Attribute) else node.func.id if isinstance(node.func, ast.Name) else None
+        ps = self.sigs.get(nm)
+        if not ps or not node.keywords or any(isinstance(a, ast.Starred) for a in node.args) or any(k.arg is None for k in node.keywords):
+            return node
+        kws = {k.arg: k for k in node.keywords}
+        if not set(kws) <= set(ps):
+            return node
+        args = list(node.args)
+        while len(args) < len(ps) and ps[len(args)] in kws:
+            args.append(kws.pop(ps[len(args)]).value)
+        node.args = args
+        node.keywords = [k for k in node.keywords if k.arg in kws]
+        return node
+
+
+def canonical_calls(trees):
+    """second pass over all modules of the package: keywords -> positional where the callee's signature is unambiguous"""
+    sigs = unique_signatures(trees)
+    for t in trees:
+        _Kw2Pos(sigs).visit(t)
+        ast.fix_missing_locations(t)
